@@ -4,9 +4,10 @@ CONFIG = {'level': 'proof',
                  'f64 table sizing) with unbounded integers (u32/i64 ranges of positions and lengths not modelled: '
                  'sequences < 2^31); tied by byte equality of encode and decode on exhaustive small domains, '
                  'random/mutation-derived pairs and token streams',
-                 'the theorems hold for every candidate supplier; that the real index never proposes a position '
-                 'whose k-mer leaves the padded reference (model result `none`) is checked by the correspondence '
-                 'run, not proved']}
+                 'the theorems hold for every candidate supplier; for the real linear-probing index (exactSupplier) '
+                 'it is proved that it only proposes positions that leave room for a k-mer in the padded reference '
+                 '(exactSupplier_ok), hence encode is total (encode_total, lz_roundtrip_exact); that the Rust index '
+                 'IS exactSupplier is the byte-exact correspondence of encode on every case']}
 
 MANIFEST = {'category': 'proof',
  'text': 'Lean theorems about Model/LzDiff.lean: for every candidate supplier (hence for the real linear-probing '
